@@ -78,7 +78,7 @@ contract("CountMinSketch.__bytes__", contexts=_CMS_ALL, properties=["C05", "C06"
          ensures=[("size", "len(result) == 4 * cw(self) * cd(self) + 16"), ("documented_layout", "cms_image(self, result, 0)")])
 
 contract("CountMinSketch._parse_footer", kind="classmethod", contexts=_CMS_ALL, properties=["C05", "C06"],
-         params={"file": "bytes"}, returns="tuple[int,int,int]",
+         params={"file": "bytes"}, variants=[{"file": "mmap"}], returns="tuple[int,int,int]",
          requires=[("has_footer", "len(file) >= 16")], modifies=[],
          ensures=[("width", "result[0] == le_bytes(file, len(file) - 16, 4)"),
                   ("depth", "result[1] == le_bytes(file, len(file) - 12, 4)"),
@@ -87,7 +87,7 @@ contract("CountMinSketch._parse_footer", kind="classmethod", contexts=_CMS_ALL, 
 _W = "le_bytes(file, len(file) - 16, 4)"
 _D = "le_bytes(file, len(file) - 12, 4)"
 contract("CountMinSketch._parse_bytes", contexts=_CMS_ALL, properties=["C05", "C06"],
-         params={"file": "bytes"},
+         params={"file": "bytes"}, variants=[{"file": "mmap"}],
          requires=[("has_footer", "len(file) >= 16"), ("stored_geometry_usable", f"{_W} >= 1 and {_D} >= 1"),
                    ("cells_present", f"len(file) >= 16 + 4 * {_W} * {_D}"),
                    ("query_mode", "valid_query_mode(self)")],
@@ -163,3 +163,57 @@ contract("CountingBloomFilter.frombytes", kind="classmethod", contexts=_CB, prop
          modifies=[],
          ensures=[(n, t.replace("self.", "result.").replace("file", "b").replace("geo_bloom(self)", "geo_bloom(result)")
                    .replace("inv_cbloom(self)", "inv_cbloom(result)")) for n, t in _CLOADED])
+
+
+# ---- the PATH channel of export: open(path, "wb") + the same body on the file object; the file at the resolved path then
+#      holds exactly the documented image (keys end in "@path": a second contract for the same body with a path argument;
+#      they are never used at call sites) -----------------------------------------------------------------------------------
+_FB = "file_bytes(resolve(file))"
+_PATH_REQ = [("a_path_is_given", "isinstance(file, str) and file != ''")]
+contract("BloomFilter.export@path", contexts=["BloomFilter"], properties=["C05", "C06", "C01"],
+         params={"file": "key"}, requires=_EXP_REQ + _PATH_REQ, modifies=["fs"],
+         ensures=[("file_holds_exactly_the_documented_export",
+                   f"file_exists(resolve(file)) and len({_FB}) == len(self._bloom) + 20 and bloom_image(self, {_FB}, 0)")])
+contract("BloomFilter.export@pathC", contexts=["CountingBloomFilter"], properties=["C05", "C06", "C08"],
+         params={"file": "key"}, requires=_CEXP + _PATH_REQ, modifies=["fs"],
+         ensures=[("file_holds_exactly_the_documented_export",
+                   f"file_exists(resolve(file)) and len({_FB}) == 4 * len(self._bloom) + 20 and cbloom_image(self, {_FB}, 0)")])
+contract("CountMinSketch.export@path", contexts=_CMS_ALL, properties=["C05", "C06"],
+         params={"file": "key"}, requires=_CEXP_REQ + _PATH_REQ, modifies=["fs"],
+         ensures=[("file_holds_exactly_the_documented_export",
+                   f"file_exists(resolve(file)) and len({_FB}) == 4 * cw(self) * cd(self) + 16 and cms_image(self, {_FB}, 0)")])
+
+
+# ---- the PATH channel of the loaders: MMap(path) + the same body on the mapped bytes ------------------------------------------
+import re as _re  # noqa: E402
+
+
+def _onpath(clauses, skip=()):
+    out = []
+    for c in clauses:
+        if isinstance(c, tuple):
+            if c[0] in skip:
+                continue
+            out.append((c[0], _re.sub(r"\bfile\b", _FB, c[1])))
+        else:
+            out.append(_re.sub(r"\bfile\b", _FB, c))
+    return out
+
+
+_PEXISTS = [("path_is_text", "isinstance(file, str)"), ("file_is_there", "file_exists(resolve(file))")]
+_BMODS = ["self._est_elements", "self._fpr", "self._bloom_length", "self._hash_func", "self._els_added",
+          "self._number_hashes", "self._num_bits", "self._bloom"]
+contract("BloomFilter._load@path", contexts=["BloomFilter"], properties=["C05", "C06", "C01"],
+         params={"file": "key", "hash_function": "opt[hashfunc]"},
+         requires=_PEXISTS + _onpath(_LOAD_REQ), modifies=_BMODS, ensures=_onpath(_LOADED))
+contract("BloomFilter._load@pathC", contexts=["CountingBloomFilter"], properties=["C05", "C06", "C08"],
+         params={"file": "key", "hash_function": "opt[hashfunc]"},
+         requires=_PEXISTS + _onpath(_CLOAD_REQ), modifies=_BMODS, ensures=_onpath(_CLOADED))
+
+from pyvc.api import CONTRACTS as _C  # noqa: E402
+_pb = _C["CountMinSketch._parse_bytes"]
+contract("CountMinSketch.__load@path", contexts=_CMS_ALL, properties=["C05", "C06"],
+         params={"file": "key"},
+         requires=_PEXISTS + _onpath(list(_pb.requires)), modifies=list(_pb.modifies), ensures=_onpath(list(_pb.ensures)))
+contract("CountMinSketch.__load", contexts=_CMS_ALL, properties=["C05", "C06"],
+         params={"file": "mmap"}, requires=list(_pb.requires), modifies=list(_pb.modifies), ensures=list(_pb.ensures))
